@@ -995,6 +995,9 @@ class Job:
         return False
 
     def __getstate__(self):
+        # Instantiate the (lazily created) state point before copying, so that
+        # the copy shares it and follows state point changes of the original.
+        self.statepoint
         state = dict(self.__dict__)
         # Locks are not pickleable and must be removed from the state
         del state["_lock"]
